@@ -75,7 +75,7 @@ def from_val(v):
         if name == "Not":
             x = from_val(a[0])
             return ("not", x) if x is not None else None
-        if name in ("And", "Or"):
+        if name in ("And", "Or", "Min", "Max"):
             xs = [from_val(x) for x in a[0].items]
             return ("nary", name, xs) if None not in xs else None
         if name in LOGIC2:
@@ -138,6 +138,9 @@ def evaluate(t, env):
     one = lambda b: Fraction(1 if b else 0)
     if k == "not":
         return one(not tr(t[1]))
+    if k == "nary" and t[1] in ("Min", "Max"):
+        vals = [evaluate(x, env) for x in t[2]]
+        return min(vals) if t[1] == "Min" else max(vals)
     if k == "nary":
         vals = [tr(x) for x in t[2]]  # all operands are evaluated: an undefined operand is undefined
         return one(all(vals) if t[1] == "And" else any(vals))
@@ -217,7 +220,7 @@ def logic_position_vars(t, in_logic=False, out=None):
         logic_position_vars(t[3], True, out)
     elif k == "nary":
         for x in t[2]:
-            logic_position_vars(x, True, out)
+            logic_position_vars(x, t[1] in ("And", "Or"), out)
     return out
 
 
@@ -315,6 +318,23 @@ def logic_trees():
     return out
 
 
+def hidden_hazards():
+    """a division by zero / by a variable wrapped in abs, min, max (forms the printers treat as leaves) under a zero factor,
+    a zero numerator, a subtraction from itself: every rewrite that makes the division disappear hides an error"""
+    x, y, zero, one = ("var", "x"), ("var", "y"), ("num", Fraction(0)), ("num", Fraction(1))
+    cores = [("bin", "Div", x, zero), ("bin", "Div", x, y), ("bin", "Div", one, x)]
+    out = []
+    for h in cores:
+        wraps = [("abs", h), ("nary", "Min", [h, one]), ("nary", "Max", [h, one]), ("neg", ("abs", h)), ("bin", "Add", y, ("nary", "Max", [h, one])), ("abs", ("neg", h)), ("nary", "Min", [one, ("abs", h)])]
+        for w in wraps:
+            out.append(("bin", "Mul", zero, w))
+            out.append(("bin", "Mul", w, zero))
+            out.append(("bin", "Add", x, ("bin", "Mul", zero, w)))
+            out.append(("bin", "Sub", w, w))
+            out.append(("bin", "Div", zero, w))
+    return out
+
+
 def dedup(ts):
     seen = set()
     out = []
@@ -346,7 +366,7 @@ def check(F, R, tier):
     flat = EXP + "::flatten"
     for p in (simp, flat, "parser::model_transformer::model::simplify_logic_nary", "parser::model_transformer::model::num_truthy", "parser::model_transformer::model::logic_number"):
         R.fn(p)
-    trees = dedup(arith_trees(2, small=(tier != "thorough")) + logic_trees())
+    trees = dedup(arith_trees(2, small=(tier != "thorough")) + logic_trees() + hidden_hazards())
     R.count("REWRITE.trees", len(trees))
     fails = {}
     n_eval = 0
